@@ -1106,3 +1106,9 @@ package types
 //@   loop 1 invariant 0 - 1 <= #rangeindex && #rangeindex < len(coins) && len(coins) > 0
 //@   loop 1 invariant forall i int :: {coins[i]} 0 <= i && i <= #rangeindex ==> val(coins[i].Amount) > 0
 //@   ensures r == (len(coins) > 0 && (forall i int :: {coins[i]} 0 <= i && i < len(coins) ==> val(coins[i].Amount) > 0))
+
+// C20: the sortable time bytes (unstaking-queue keys) are a function of the INSTANT alone: the text of the instant
+// shown in UTC - two time.Time values for the same instant in different locations give the same bytes (seed C20d)
+//@ func FormatTimeBytes(t time.Time) (r []byte)
+//@   props C20
+//@   ensures fresh(r) && strof(r) == time_fmt_utc(t_inst(t), "2006-01-02T15:04:05.000000000")
